@@ -53,6 +53,8 @@ def install(lib):
             return x.n
         if isinstance(x, (list, tuple, dict, str, set)):
             return len(x)
+        if isinstance(x, _EmptyDeque):
+            return len(x.items)
         if isinstance(x, _DictView):
             return len(x.d)
         if isinstance(x, _SymGen):
@@ -657,6 +659,26 @@ def install(lib):
             return Arr(z3.K(INT, z3.RealVal(0)), shape[0])
         raise Unsupported("zeros(shape)")
 
+    def np_argmax(ex, x, axis=None, **k):
+        """first index of a maximal entry (for a boolean array: the first True, 0 if there is none); NaN-free arrays only"""
+        if not isinstance(x, Arr):
+            raise Unsupported("argmax of a non-array")
+        used(ex, "jnp.argmax(x): the FIRST index of a maximal entry (booleans ordered False < True, so 0 when no entry is True)")
+        val = (lambda t: z3.If(z3.Select(x.a, t), 1, 0)) if x.sort() == BOOL else (lambda t: z3.Select(x.a, t))
+        r = ex.fresh("argmax", INT)
+        i = z3.Int(f"i!amx{next(ex.fresh_n)}")
+        ex.oblige("argmax-of-nonempty", x.n >= 1, kind="safety")
+        ex.assume(z3.And(0 <= r, r < x.n))
+        ex.assume(z3.ForAll([i], z3.Implies(z3.And(0 <= i, i < x.n), val(i) <= val(r))))
+        ex.assume(z3.ForAll([i], z3.Implies(z3.And(0 <= i, i < r), val(i) < val(r))))
+        return r
+
+    def np_full(ex, shape, fill_value, dtype=None, **k):
+        used(ex, "numpy.full(shape, v): an array of that shape with every entry v")
+        if isinstance(shape, (tuple, list)) and len(shape) == 1:
+            return Arr(z3.K(INT, toz(coerce(fill_value, REAL) if not is_sym(fill_value) or toz(fill_value).sort() != INT else fill_value)), shape[0])
+        raise Unsupported("full with a multi-dimensional shape")
+
     def np_issubdtype(ex, d, kind):
         used(ex, "dtype predicates (issubdtype) are unknown booleans: both outcomes are explored (floats are reals, dtypes are opaque tags)")
         return ex.fresh("issubdtype", BOOL)
@@ -687,7 +709,7 @@ def install(lib):
             return z3.Function("vector_min", Leaf, Leaf)(x)
         return x
 
-    common = dict(issubdtype=np_issubdtype, floating=TypeTag("floating"), integer=TypeTag("integer"), all=np_all, any=np_any, flip=np_flip, searchsorted=np_searchsorted, max=np_amax, min=np_amin, amax=np_amax, amin=np_amin, zeros=np_zeros, interp=np_interp, argwhere=np_argwhere, ones=np_ones, arange=np_arange, array=np_array, asarray=np_asarray, where=np_where, clip=np_clip, roll=np_roll, take=np_take, maximum=np_maximum, minimum=np_minimum,
+    common = dict(argmax=np_argmax, full=np_full, issubdtype=np_issubdtype, floating=TypeTag("floating"), integer=TypeTag("integer"), all=np_all, any=np_any, flip=np_flip, searchsorted=np_searchsorted, max=np_amax, min=np_amin, amax=np_amax, amin=np_amin, zeros=np_zeros, interp=np_interp, argwhere=np_argwhere, ones=np_ones, arange=np_arange, array=np_array, asarray=np_asarray, where=np_where, clip=np_clip, roll=np_roll, take=np_take, maximum=np_maximum, minimum=np_minimum,
                   isnan=np_isnan, ceil=np_ceil, floor=np_floor, sqrt=np_sqrt, zeros_like=np_zeros_like, ones_like=np_ones_like,
                   logical_and=np_logical("and"), logical_or=np_logical("or"), logical_not=np_logical_not, exp=np_exp, log=np_log, tanh=np_tanh,
                   arctanh=np_arctanh, abs=b_abs, square=lambda ex, x: ex.binop(ast.Mult(), x, x),
@@ -1006,8 +1028,54 @@ def install(lib):
 
 
 class _EmptyDeque:
-    """deque() whose element schema is not known yet: becomes a Seq on assignment by the contract's schema table"""
-    pass
+    """a deque() created by the analysed code: concrete contents (python list of values), the usual deque operations"""
+    def __init__(self):
+        self.items = []
+
+    def items_list(self):
+        return list(self.items)
+
+    def length(self):
+        return len(self.items)
+
+    def pyvc_getattr(self, ex, attr):
+        it = self.items
+        if attr == "append":
+            return lambda ex_, v: it.append(v)
+        if attr == "appendleft":
+            return lambda ex_, v: it.insert(0, v)
+        if attr == "extend":
+            def extend(ex_, vs):
+                c = ex_.concrete_iter(vs)
+                if c is None:
+                    raise Unsupported("deque.extend with a symbolic iterable")
+                it.extend(list(c))
+            return extend
+        if attr == "popleft":
+            def popleft(ex_):
+                if not it:
+                    raise RaiseEx("IndexError", msg="pop from an empty deque")
+                return it.pop(0)
+            return popleft
+        if attr == "pop":
+            def pop(ex_):
+                if not it:
+                    raise RaiseEx("IndexError", msg="pop from an empty deque")
+                return it.pop()
+            return pop
+        if attr == "clear":
+            return lambda ex_: it.clear()
+        raise Unsupported(f"attribute {attr!r} of a deque")
+
+    def pyvc_getitem(self, ex, i):
+        if isinstance(i, int) and -len(self.items) <= i < len(self.items):
+            return self.items[i]
+        if isinstance(i, int):
+            raise RaiseEx("IndexError", msg="deque index out of range")
+        raise Unsupported("symbolic index into a concrete deque")
+
+    def pyvc_iter(self, ex):
+        return list(self.items)
 
 
 class _Inf:
